@@ -274,7 +274,7 @@ func newWorld(par map[string]interface{}, rng *rand.Rand, seed int64, logger log
 		}
 		g := &gateStore{StateStorer: newMemState()}
 		rt := rmock.NewMockRouteTable()
-		n, err := nodelite.NewWithOptions(w.board, addr, "", g, logger, nodelite.Options{Route: &rt})
+		n, err := nodelite.NewWithOptions(w.board, addr, "", g, logger, nodelite.Options{Route: &rt, StoreDriver: `leveldb:{"WriteBuffer":1048576}`})
 		if err != nil {
 			return nil, err
 		}
@@ -624,6 +624,12 @@ func (w *world) signature() string {
 			continue
 		}
 		fmt.Fprintf(&sb, "%d,", atomic.LoadInt32(&w.nodes[nm].init))
+		d := w.nodes[nm].n.CI.VerifDump(w.root)
+		ql := -1
+		if d.Queue != nil {
+			ql = len(d.Queue.UnPull)*10000 + len(d.Queue.Pulling)*100 + len(d.Queue.Pulled)
+		}
+		fmt.Fprintf(&sb, "%v%v%v%v%v%d%d;", d.Pending, d.Sync, d.Pyramid, d.ServerKey, d.DiscoverKey, ql, len(d.Triggers))
 	}
 	for _, p := range w.pend {
 		if p.d.Finished() {
@@ -914,6 +920,22 @@ func (w *world) run(sc kit.Scenario) (evs []kit.Ev, err error) {
 			}
 		case "cancel":
 			wn.n.CI.CancelFindChunkInfo(w.root)
+		case "retrieve":
+			// a data chunk of the file is fetched from A under the file's context, the way a download does
+			// (netstore.Get -> retrieval.RetrieveChunk -> OnChunkRetrieved / OnChunkTransferred); the retrieval
+			// protocol is not held by the switchboard
+			c := kit.Int(op, "c")
+			if c < 1 || c > len(w.data) {
+				return nil, fmt.Errorf("retrieve: no data chunk %d", c)
+			}
+			ev["c"] = c
+			rctx, cancel := context.WithTimeout(sctx.SetRootHash(sctx.SetTargets(context.Background(), w.nodes["A"].n.Addr.String()), w.root), 20*time.Second)
+			_, rerr := wn.n.NS.Get(rctx, storage.ModeGetRequest, w.data[c-1])
+			cancel()
+			ev["err"] = rerr != nil
+			wn.n.Settle()
+			w.nodes["A"].n.Settle()
+			ev["late"] = w.settle(hm, retn, 3*time.Second)
 		case "release":
 			wn.gate.mu.Lock()
 			rel := wn.gate.release
@@ -1115,7 +1137,7 @@ func runAll(scs []kit.Scenario, out *kit.Out) error {
 	debug.SetMemoryLimit(5 << 29)
 	logger := logging.New(ioutil.Discard, 0)
 	seed := kit.Seed()
-	workers := 12
+	workers := 16
 	if s := os.Getenv("VERIF_WORKERS"); s != "" {
 		fmt.Sscanf(s, "%d", &workers)
 	}
